@@ -172,6 +172,7 @@ class Ctx:
         self.violations = []  # dict(monitor,key,detail,case)
         self.violation_keys = {}
         self.notes = []
+        self.observed = {}  # kind -> set of distinct values seen by the monitors (interleavings, states, ...)
         self.reach = Reach()
         self.t0 = time.time()
 
@@ -194,6 +195,10 @@ class Ctx:
 
     def count(self, name, n=1):
         self.counters[name] = self.counters.get(name, 0) + n
+
+    def observe(self, kind, value):
+        """record a distinct observed state / interleaving (reported as a count of distinct values)"""
+        self.observed.setdefault(kind, set()).add(value if isinstance(value, str) else json.dumps(enc(value), sort_keys=True))
 
     def note(self, text):
         if len(self.notes) < 50 and text not in self.notes:
@@ -287,6 +292,7 @@ class Ctx:
             "violations": self.violations,
             "violation_keys": self.violation_keys,
             "notes": self.notes,
+            "observed_sets": {k: sorted(v)[:2000] for k, v in self.observed.items()},
             "reach": sorted(self.reach.seen),
             "wall_s": time.time() - self.t0,
         }
